@@ -253,7 +253,13 @@ func guardCanon(at ssa.Instruction) []string {
 				case token.GTR:
 					a, b, nop = b, a, token.LSS
 				case token.EQL, token.NEQ:
-					if b < a {
+					_, xc := bo.X.(*ssa.Const)
+					_, yc := bo.Y.(*ssa.Const)
+					switch {
+					case xc && !yc:
+					case yc && !xc:
+						a, b = b, a
+					case b < a:
 						a, b = b, a
 					}
 				}
